@@ -18,10 +18,10 @@ RULE = ('generated consistent / weakly consistent bases x random fact lists (str
         'non-empty infinity layer, or facts; distinct by hash(base, facts, extended).')
 ASSUMPTIONS = ['worlds enumerated: <= 5 atoms']
 TRUSTED = []
-FLOOR = {'quick': 1200, 'thorough': 12000}
+FLOOR = {'quick': 300, 'thorough': 3000}
 BUDGET = {'quick': 100, 'thorough': 1200}
 N = {'quick': 2500, 'thorough': 30000}
-REQUIRED = {'quick': {'objects_with_facts': 100, 'refusals_with_diagnostics': 20, 'acceptance_threeway': 1500,
+REQUIRED = {'quick': {'objects_with_facts': 100, 'refusals_with_diagnostics': 20, 'acceptance_threeway': 800,
                       'forced_recalculations': 300},
             'thorough': {'objects_with_facts': 1000, 'refusals_with_diagnostics': 200, 'acceptance_threeway': 15000,
                          'forced_recalculations': 3000}}
